@@ -661,7 +661,7 @@ pub fn judge_c17(r: &Resp, p: &Probe) -> Judge {
 
 pub fn run_c17(ctx: &Ctx) {
     ctx.enable_traced_pass(4);
-    ctx.set_rule("proptest-generated responses: status (weighted to the three success codes, also 0x0003-0x00ff and any u16) x printer-state {absent, enum 3/4/5, other enum, integer 5, keyword} x printer-state-reasons {absent, one keyword, set of 1-8 keywords from the ten blocking and an informational vocabulary, blocking keyword at any position} x unrelated attributes and groups before/after (in 50 % of cases the operation group and the first preceding job/unsupported group carry harmless attributes of the same names: reasons 'none', out-of-band 'unsupported', state idle/processing - the printer-attributes group stays authoritative); each response is judged twice: built in memory, and encoded by the reference encoder and parsed by the library. Oracle = truth table from the statement (silent where it is silent). Non-trivial = success status and (blocking keyword not first in a set, or a single keyword, or stopped with harmless reasons); distinct by response hash. Each response is judged as five objects: built in memory; parsed from the reference encoding; built earlier with the opposite state/reasons and brought up to date with add(); parsed by the blocking parser from pieces of 1-7 octets; parsed by the async parser from such pieces with not-ready results.");
+    ctx.set_rule("proptest-generated responses: status (weighted to the three success codes, also 0x0003-0x00ff and any u16) x printer-state {absent, enum 3/4/5, other enum, integer 5, keyword} x printer-state-reasons {absent, one keyword, set of 1-8 keywords from the ten blocking and an informational vocabulary, blocking keyword at any position, sets of mixed syntaxes with 1-2 members that are not keywords (a name, a text value), in half of them first} x unrelated attributes and groups before/after (in 50 % of cases the operation group and the first preceding job/unsupported group carry harmless attributes of the same names: reasons 'none', out-of-band 'unsupported', state idle/processing - the printer-attributes group stays authoritative); each response is judged twice: built in memory, and encoded by the reference encoder and parsed by the library. Oracle = truth table from the statement (silent where it is silent). Non-trivial = success status and (blocking keyword not first in a set, or a single keyword, or stopped with harmless reasons); distinct by response hash. Each response is judged as five objects: built in memory; parsed from the reference encoding; built earlier with the opposite state/reasons and brought up to date with add(); parsed by the blocking parser from pieces of 1-7 octets; parsed by the async parser from such pieces with not-ready results.");
     ctx.assume("state/reasons are placed in the first printer-attributes group only; status 0x0003-0x00ff is not asserted");
     let (shards, per) = ctx.tier.pick((16, 15000), (16, 250000));
     run_prop(ctx, "readiness", shards, per, resp, judge_c17, resp_json);
